@@ -24,6 +24,16 @@ def treebank(max_tokens, max_trees=6):
     @st.composite
     def build(draw):
         pool = draw(st.lists(tree, min_size=1, max_size=3))
+        # variants: the same tree with two tokens exchanging their positions - same labels and rules in the untouched
+        # parts, but ancestors get other fan-outs (same production under contexts that differ only in fan-out)
+        for _ in range(draw(st.integers(0, 2))):
+            base = M.copy(pool[draw(st.integers(0, len(pool) - 1))]["root"])
+            toks = M.toks(base)
+            if len(toks) >= 3:
+                i = draw(st.integers(0, len(toks) - 1))
+                j = draw(st.integers(0, len(toks) - 1))
+                toks[i]["n"], toks[j]["n"] = toks[j]["n"], toks[i]["n"]
+                pool.append({"sid": 1, "root": base})
         picks = draw(st.lists(st.integers(0, len(pool) - 1), min_size=1, max_size=max_trees))
         return [pool[i] for i in picks]
     return build()
